@@ -638,7 +638,9 @@ def main(argv):
     target_dir = os.path.join(KANI_DIR, "target", feature)
     known = load_known()
     jobs = jobs or cfg.get("jobs", 12)
-    timeout_s = cfg.get("timeout_%s" % tier, cfg.get("timeout", 600 if tier == "quick" else 2400))
+    timeout_s = cfg.get("timeout_%s" % tier, cfg.get("timeout", 600))
+    if tier == "thorough" and "timeout_thorough" not in cfg:
+        timeout_s = max(timeout_s, 2400)  # thorough-only harnesses include the 1 KiB-body and 255-segment ones
 
     # ---------------- Engine K
     want = ("q_",) if tier == "quick" else ("q_", "t_")
